@@ -18,12 +18,12 @@ PROPS = {
     "C08": {"suites": {"quick": SEQ("C08", 1500, 60000)["quick"] + [("stress", {"count": 1000}), ("config", {"tier": "quick"})], "thorough": SEQ("C08", 1500, 60000)["thorough"] + [("stress", {"count": 20000}), ("config", {"tier": "thorough"})]}, "design": "6/C08", "needs_memcrsd": True},
     "C11": {"suites": {"quick": SEQ("C11", 1500, 60000)["quick"] + [("conn", {"profile": "C11", "count": 20, "tier": "quick"})],
                        "thorough": SEQ("C11", 1500, 60000)["thorough"] + [("conn", {"profile": "C11", "count": 400, "tier": "thorough"})]}, "design": "6/C11"},
-    "C19": {"suites": {"quick": [("seq", {"profile": "C19", "count": 1000}), ("conn", {"profile": "C12", "count": 30, "tier": "quick"})],
+    "C19": {"suites": {"quick": [("seq", {"profile": "C19", "count": 1000}), ("conn", {"profile": "C12", "count": 44, "tier": "quick"})],
                        "thorough": [("seq", {"profile": "C19", "count": 40000}), ("conn", {"profile": "C12", "count": 600, "tier": "thorough"})]}, "design": "6/C19",
             "projection": core.framing_projection(with_dump=True)},
 }
 
-STREAM = lambda prof, q, t: {"quick": [("codec", {"profile": prof, "count": q, "tier": "quick"}), ("conn", {"profile": prof, "count": max(q // 3, 10), "tier": "quick"})],
+STREAM = lambda prof, q, t: {"quick": [("codec", {"profile": prof, "count": q, "tier": "quick"}), ("conn", {"profile": prof, "count": max(q // 2, 10), "tier": "quick"})],
                              "thorough": [("codec", {"profile": prof, "count": t, "tier": "thorough"}), ("conn", {"profile": prof, "count": t // 2, "tier": "thorough"})]}
 PROPS.update({
     "C09": {"suites": STREAM("C09", 120, 1500), "design": "6/C09", "projection": core.framing_projection()},
